@@ -46,6 +46,6 @@ class EDXMLMergeConflictError(EDXMLValidationError):
         """
         super().__init__(
             'A merge conflict was detected between the following events:' + '\n'.join(
-                [etree.tostring(e, pretty_print=True, encoding='unicode') for e in events]
+                [etree.tostring(e.get_element(), pretty_print=True, encoding='unicode') for e in events]
             )
         )
